@@ -216,10 +216,20 @@ def _worker_minimise(args):
     cur = sc
     if _fails_with(chk, sc, sig):
         prelude = []
-        # history-free violation: shrink with in-process trials, confirm the result in a fresh
-        # process; if the code under test keeps state between trials and misled the search,
-        # redo it with one fresh process per trial
-        cand, n = _shrink_loop(chk, sc, sig, prelude, t0, budget_s * 0.6, local)
+        # history-free violation: shrink with many trials inside ONE sacrificial child process
+        # (fast), then confirm its result in a fresh child of this still history-free worker;
+        # if state kept by the code under test between trials misled the search, redo it with
+        # one fresh process per trial
+        cand, n = sc, 0
+        if _self_forking(chk) or os.environ.get("VERIF_NOFORK"):
+            cand, n = _shrink_loop(chk, sc, sig, prelude, t0, budget_s * 0.6, local)
+        else:
+            from .fork import run_in_fork
+            try:
+                cand, n = run_in_fork(_shrink_loop, chk, sc, sig, prelude, t0, budget_s * 0.6, local,
+                                      timeout_s=int(budget_s * 3 + RUN_WALL_CAP_S))
+            except RuntimeError:
+                cand, n = sc, 0
         tried += n
         if _fails_with(chk, cand, sig):
             cur = cand
